@@ -520,6 +520,22 @@ def rule_merge_order(ctx, F):
         a = e[2]
         pair = unify((IDX(2), IDX(1)), (a[0], a[1]))
         fold = unify(IDX(1), a[0]) is not None and a[1][0] == "call" and a[1][1] == "Output::chaining_value"
+        nx = a[0][1] if (a[0][0] == "path" and isinstance(a[0][1], tuple)) else a[0]       # `next(..) as Some.0`
+        if not fold and pair is None and a[1][0] == "call" and a[1][1] == "Output::chaining_value" and nx[0] == "call" and "Rev<" in nx[1] and nx[1].endswith("::next"):
+            # the same fold written with an iterator: the left operand is the next element of `<prefix of self.cv_stack>.iter().rev()`,
+            # i.e. the stack entries from the top down
+            src = val(fo.expand_built(nx[2][0])) if nx[2] and isinstance(nx[2][0], tuple) and nx[2][0][0] == "built" else nx[2][0]
+            def _mentions_stack(x, depth=0):
+                if find_sub(x, P.self_("cv_stack")) is not None:
+                    return True
+                if depth > 3:
+                    return False
+                hit = find_sub(x, ("phi", W("l"), W()))
+                if hit is not None and isinstance(hit[1]["l"], int):
+                    alts = [val(a_) for a_ in fo.phi_alts(hit[1]["l"])]
+                    return bool(alts) and all(_mentions_stack(a_, depth + 1) for a_ in alts)
+                return False
+            fold = find_sub(src, ("call", W(pred=lambda n_: isinstance(n_, str) and n_.endswith("::rev")), (W(),))) is not None and _mentions_stack(src)
         ctx.ob(pair is not None or fold, "final-merge-operands", where,
                "parent_node_output(%s, %s, ..) ; required (stack[n-2], stack[n-1]) or (stack[n-1], output.chaining_value())" % (show(a[0])[:60], show(a[1])[:60]))
         ctx.ob(a[2:] == (P.self_("key"), P.self_("chunk_state", "flags"), P.self_("chunk_state", "platform")), "final-merge-key-flags", where, "key/flags/platform from self")
